@@ -1107,6 +1107,11 @@ pub fn lzma2_parse_lzma_status_flags() {
 /// byte), read through EofCutReader: no path may report success. Paths on which the source's
 /// read_exact runs dry end at the witness (the real code propagates that error with `?`).
 fn missing_end_cut<const NCH: usize, const K: usize>() {
+    missing_end_cut_short::<NCH, K, 0>()
+}
+
+/// As above with the last SHORT bytes of the input removed as well (input ends inside a chunk).
+fn missing_end_cut_short<const NCH: usize, const K: usize, const SHORT: usize>() {
     let mut t = Tape::<32>::new();
     let body: [u8; 16] = t.bytes::<16>();
     let mut f = [0u8; 32];
@@ -1126,7 +1131,7 @@ fn missing_end_cut<const NCH: usize, const K: usize>() {
         c += 1;
     }
     let mut dec = mk_decoder([script(1, K_LIT); 4]);
-    let mut rd = EofCutReader::<32>::new(f, n);
+    let mut rd = EofCutReader::<32>::new(f, n - SHORT);
     let mut sink = RecSink::<16>::new();
     let r = dec.decompress(&mut rd, &mut sink);
     let ok = r.is_ok();
@@ -1135,7 +1140,7 @@ fn missing_end_cut<const NCH: usize, const K: usize>() {
     forget(dec);
 }
 
-//@ harness props=C17,C02,C13 tier=quick unwind=6 unwindset=decompress:4,missing_end_cut:12,EofCutReader.*read:8 mem_gb=6 timeout=600 native=no
+//@ harness props=C17,C02,C13 tier=quick unwind=6 unwindset=decompress:4,missing_end_cut_short:12,EofCutReader.*read:8 mem_gb=6 timeout=600 native=no
 //@ bound: LZMA2: empty input (end of input where the first control byte is expected); source EOF in read_exact is a witness that ends the path
 #[cfg_attr(kani, kani::proof)]
 #[cfg_attr(kani, kani::stub(std::fmt::format, crate::verif_common::stub_format))]
@@ -1145,7 +1150,7 @@ pub fn lzma2_missing_end_cut_empty() {
     missing_end_cut::<0, 1>()
 }
 
-//@ harness props=C17,C02,C13 tier=quick unwind=6 unwindset=decompress:4,missing_end_cut:12,EofCutReader.*read:8 mem_gb=6 timeout=600 native=no
+//@ harness props=C17,C02,C13 tier=quick unwind=6 unwindset=decompress:4,missing_end_cut_short:12,EofCutReader.*read:8 mem_gb=6 timeout=600 native=no
 //@ bound: LZMA2: one uncompressed chunk of 3 symbolic bytes, then end of input where the next control byte is expected; source EOF in read_exact is a witness that ends the path
 #[cfg_attr(kani, kani::proof)]
 #[cfg_attr(kani, kani::stub(std::fmt::format, crate::verif_common::stub_format))]
@@ -1153,4 +1158,34 @@ pub fn lzma2_missing_end_cut_empty() {
 #[cfg_attr(kani, kani::stub(crate::decode::lzbuffer::LzAccumBuffer::from_stream, crate::decode::lzbuffer::verif_h::accum_from_stream_with_capacity))]
 pub fn lzma2_missing_end_cut_1x3() {
     missing_end_cut::<1, 3>()
+}
+
+//@ harness props=C17 tier=quick unwind=6 unwindset=decompress:5,missing_end_cut_short:12,EofCutReader.*read:8 mem_gb=6 timeout=600 native=no
+//@ bound: LZMA2: two uncompressed chunks of 2 symbolic bytes, then end of input where the third control byte is expected; source EOF in read_exact is a witness that ends the path
+#[cfg_attr(kani, kani::proof)]
+#[cfg_attr(kani, kani::stub(std::fmt::format, crate::verif_common::stub_format))]
+#[cfg_attr(kani, kani::stub(std::io::Error::is_interrupted, crate::verif_common::stub_not_interrupted))]
+#[cfg_attr(kani, kani::stub(crate::decode::lzbuffer::LzAccumBuffer::from_stream, crate::decode::lzbuffer::verif_h::accum_from_stream_with_capacity))]
+pub fn lzma2_missing_end_cut_2x2() {
+    missing_end_cut_short::<2, 2, 0>()
+}
+
+//@ harness props=C17 tier=quick unwind=6 unwindset=decompress:5,missing_end_cut_short:12,EofCutReader.*read:8 mem_gb=6 timeout=600 native=no
+//@ bound: LZMA2: input ends inside the size field of an uncompressed chunk (control byte + 1 byte); source EOF in read_exact is a witness that ends the path
+#[cfg_attr(kani, kani::proof)]
+#[cfg_attr(kani, kani::stub(std::fmt::format, crate::verif_common::stub_format))]
+#[cfg_attr(kani, kani::stub(std::io::Error::is_interrupted, crate::verif_common::stub_not_interrupted))]
+#[cfg_attr(kani, kani::stub(crate::decode::lzbuffer::LzAccumBuffer::from_stream, crate::decode::lzbuffer::verif_h::accum_from_stream_with_capacity))]
+pub fn lzma2_cut_inside_size_field() {
+    missing_end_cut_short::<1, 3, 4>()
+}
+
+//@ harness props=C17 tier=quick unwind=6 unwindset=decompress:5,missing_end_cut_short:12,EofCutReader.*read:8 mem_gb=6 timeout=600 native=no
+//@ bound: LZMA2: second of two uncompressed chunks lacks its last payload byte; source EOF in read_exact is a witness that ends the path
+#[cfg_attr(kani, kani::proof)]
+#[cfg_attr(kani, kani::stub(std::fmt::format, crate::verif_common::stub_format))]
+#[cfg_attr(kani, kani::stub(std::io::Error::is_interrupted, crate::verif_common::stub_not_interrupted))]
+#[cfg_attr(kani, kani::stub(crate::decode::lzbuffer::LzAccumBuffer::from_stream, crate::decode::lzbuffer::verif_h::accum_from_stream_with_capacity))]
+pub fn lzma2_cut_inside_second_payload() {
+    missing_end_cut_short::<2, 2, 1>()
 }
